@@ -102,7 +102,7 @@ fn mmom(a: usize, tick: u32) -> MomentumMarketAgent {
     MomentumMarketAgent::new(200, 4, a, MomentumParams { tick_size: tick, p_cancel: 0.2, trade_vol: 2, decay: 0.5, demand: 5.0, scale: 0.5, order_ratio: 1.0, price_dist_mu: 0.0, price_dist_sigma: 2.0 })
 }
 
-pub const COMPOSITIONS: [&str; 7] = ["random", "noise", "momentum", "random+noise", "noise+momentum", "all-three", "nested(random+noise)+momentum"];
+pub const COMPOSITIONS: [&str; 9] = ["random", "noise", "momentum", "random+noise", "noise+momentum", "all-three", "nested(random+noise)+momentum", "noise x1500 (more than 1024 instructions per step)", "random x70000 (more than 65535 traders)"];
 
 #[derive(Clone, Debug, PartialEq, Eq, PartialOrd, Ord)]
 pub struct Point {
@@ -217,6 +217,7 @@ fn drive_single<A: AgentSet>(p: &Point, agents: &mut A, d: Driver, stream: &mut 
         }
         Driver::HandPlayback => {
             let mut rng = ScriptRng::new(stream.clone(), 0);
+            rng.budget = stream.len() as u64 + 100_000;
             for _ in 0..p.steps {
                 agents.update(&mut env, &mut rng);
                 env.step(&mut rng);
@@ -254,6 +255,7 @@ fn drive_multi<A: MarketAgentSet>(p: &Point, agents: &mut A, d: Driver, stream: 
         }
         Driver::HandPlayback => {
             let mut rng = ScriptRng::new(stream.clone(), 0);
+            rng.budget = stream.len() as u64 + 100_000;
             for _ in 0..p.steps {
                 agents.update(&mut env, &mut rng);
                 env.step(&mut rng);
@@ -284,6 +286,8 @@ pub fn run_point(p: &Point, d: Driver, stream: &mut Vec<Ans>) -> (u64, u64) {
             3 => drive_single(p, &mut SetRN { r: rnd(t), n: noise(t) }, d, stream),
             4 => drive_single(p, &mut SetNM { n: noise(t), m: mom(t) }, d, stream),
             5 => drive_single(p, &mut SetAll { r: rnd(t), n: noise(t), m: mom(t) }, d, stream),
+            7 => drive_single(p, &mut SetN { n: NoiseAgent::new(100, 1500, NoiseAgentParams { tick_size: t, p_limit: 1.0, p_market: 0.1, p_cancel: 0.1, trade_vol: 3, price_dist_mu: 0.0, price_dist_sigma: 2.0 }) }, d, stream),
+            8 => drive_single(p, &mut SetR { r: RandomAgents::new(70_000, (90, 111), (1, 10), t, 1.0) }, d, stream),
             _ => drive_single(p, &mut SetNested { inner: SetRN { r: rnd(t), n: noise(t) }, m: mom(t) }, d, stream),
         }
     } else {
@@ -294,15 +298,25 @@ pub fn run_point(p: &Point, d: Driver, stream: &mut Vec<Ans>) -> (u64, u64) {
             3 => drive_multi(p, &mut MSetRN { r: mrnd(0, t), n: mnoise(1, t) }, d, stream),
             4 => drive_multi(p, &mut MSetNM { n: mnoise(0, t), m: mmom(0, t) }, d, stream),
             5 => drive_multi(p, &mut MSetAll { r: mrnd(0, t), n: mnoise(1, t), m: mmom(1, t) }, d, stream),
+            7 => drive_multi(p, &mut MSetN { n: NoiseMarketAgent::new(1, 100, 1500, NoiseAgentParams { tick_size: t, p_limit: 1.0, p_market: 0.1, p_cancel: 0.1, trade_vol: 3, price_dist_mu: 0.0, price_dist_sigma: 2.0 }) }, d, stream),
+            8 => drive_multi(p, &mut MSetR { r: RandomMarketAgents::new(0, 70_000, (90, 111), (1, 10), t, 1.0) }, d, stream),
             _ => drive_multi(p, &mut MSetNested { inner: MSetRN { r: mrnd(1, t), n: mnoise(0, t) }, m: mmom(0, t) }, d, stream),
         }
     }
 }
 
 pub fn grid(t: bool) -> Vec<Point> {
-    let seeds: Vec<u64> = if t { (0..8).collect() } else { vec![0, 1] };
+    // (seeds beyond 32 bits: s and s + 2^32 must give different runs)
+    let mut seeds: Vec<u64> = if t { (0..8).collect() } else { vec![0, 1] };
+    seeds.extend([(1u64 << 32) + 1, (1 << 63) + 5]);
     let steps: Vec<u64> = if t { vec![1, 10, 50] } else { vec![10, 40] };
     let mut v = Vec::new();
+    // large populations: one point each
+    for comp in [7usize, 8] {
+        for multi in [false, true] {
+            v.push(Point { comp, multi, seed: 2, steps: 4, tick: 1, step_size: 100 });
+        }
+    }
     for comp in 0..7 {
         for multi in [false, true] {
             for &seed in &seeds {
